@@ -32,6 +32,47 @@ def _connected(seed_syms, polys):
     return sorted(chosen)
 
 
+def atom_reduce(path, goal):
+    """normal form of a rational function modulo the atom definitions, by direct rewriting:
+    r**2 -> radicand for every sqrt atom, s**2 -> 1 - c**2 for every trig pair (atoms are processed
+    newest first: a radicand only mentions older atoms).  Returns the reduced numerator."""
+    num = sp.expand(S.numden(goal)[0])
+    if num == 0:
+        return num
+    atoms = []
+    for key, (r, e) in path.sqrt_atoms.items():
+        atoms.append((int(r.name.split('_')[-1]), 'sqrt', r, e))
+    for key, (c, s_, base) in path.trig_atoms.items():
+        atoms.append((int(c.name.split('_')[-1]), 'trig', (c, s_), base))
+    seen = set()
+    for _idx, kind, at, e in sorted(atoms, key=lambda t: -t[0]):
+        if kind == 'sqrt':
+            if at in seen or not num.has(at):
+                continue
+            seen.add(at)
+            P = sp.Poly(num, at)
+            even, odd = 0, 0
+            for (k,), coef in P.terms():
+                if k % 2 == 0:
+                    even += coef * e ** (k // 2)
+                else:
+                    odd += coef * e ** ((k - 1) // 2)
+            num = sp.expand(S.numden(sp.together(even + odd * at))[0])
+        else:
+            c, s_ = at
+            if s_ in seen or not num.has(s_):
+                continue
+            seen.add(s_)
+            P = sp.Poly(num, s_)
+            acc = 0
+            for (k,), coef in P.terms():
+                acc += coef * (1 - c ** 2) ** (k // 2) * s_ ** (k % 2)
+            num = sp.expand(acc)
+        if num == 0:
+            return num
+    return num
+
+
 class _Timeout(Exception):
     pass
 
